@@ -7,6 +7,8 @@
 #include <cstdio>
 #include <cstdlib>
 #include <cstring>
+#include <csignal>
+#include <unistd.h>
 #include <fstream>
 #include <iostream>
 #include <sstream>
@@ -211,12 +213,29 @@ template <class F> std::string guarded(F f) {
 // Standard driver: `gen(rng)` returns a request s-expression text, `eval(req)` evaluates it
 // against the real code and returns the result text.  With --ops the requests are read
 // from a file (replay, corpus, shrinking) instead of being generated.
+// the request being evaluated (reported on stderr by the crash handler: a crash is a result, and
+// the crashing request is its failing input)
+inline std::string &current_request() { static std::string s; return s; }
+inline void crash_handler(int sig) {
+  const std::string &r = current_request();
+  const char *pre = "\nCRASH-ON ";
+  (void)!write(2, pre, strlen(pre));
+  (void)!write(2, r.c_str(), r.size());
+  (void)!write(2, "\n", 1);
+  _exit(128 + sig);
+}
+
 template <class Gen, class Eval> int run_harness(int argc, char **argv, Gen gen, Eval eval) {
   Args a = parse_args(argc, argv);
   std::ios::sync_with_stdio(false);
+  signal(SIGSEGV, crash_handler);
+  signal(SIGABRT, crash_handler);
+  signal(SIGFPE, crash_handler);
+  signal(SIGBUS, crash_handler);
   auto one = [&](const std::string &reqtxt) {
     Sx req;
     if (!sx_parse_request(reqtxt, req)) { std::cout << "# unparsable request: " << reqtxt << "\n"; return; }
+    current_request() = reqtxt;
     std::string res = guarded([&]() { return eval(req); });
     std::cout << req.str() << " => " << res << "\n";
   };
